@@ -219,7 +219,7 @@ Proof.
   induction ls as [|l r IH]; intros s s' H; simpl in H.
   - inversion H. apply ext_refl.
   - match type of H with (if ?b then _ else _) = _ => destruct b end; [discriminate|].
-    eapply ext_trans; [apply assign_leaf_ext | apply IH; auto].
+    eapply ext_trans; [apply (assign_leaf_ext s l) | apply IH; exact H].
 Qed.
 
 Lemma assign_checked_sim : forall ls t0 s s' sf t, assign_leaves_checked s ls = Ok s' -> ext s' sf ->
